@@ -31,11 +31,13 @@ EXPLANATION = (
     "attribute in all three, and the ACL observation indexes the state with the loop index it uses as key and as "
     "`position`, starting at the same base as AccessControlList.describe_state; R9.6 an attribute that feeds a leaf, is "
     "never derived from a constructor parameter and is not read by `space` is cross-step memory and must be stored by "
-    "observe. NOT decided: numerical equality of every leaf with the simulator's attribute at every step (needs "
+    "observe; R9.7 a scenario option (a name declared by an observation ConfigSchema) travels to the leaf that consults it "
+    "only through like-named hops - inheritance blocks `if child.f is None: child.f = parent.f`, child-config stores, "
+    "constructor keywords, `self.f = f` - so a hop joining two different declared options is reported. NOT decided: numerical equality of every leaf with the simulator's attribute at every step (needs "
     "execution), whether describe_state is called after all of the step's effects, and the contents of untyped "
     "dictionaries (NetworkInterface.traffic / nmne) below their top-level key."
 )
-TECHNIQUE = "static: where-path resolution against the describe_state schema, leaf-to-field def-use table, CFG must-pass for absent/not-ON defaults, cross-step memory store check"
+TECHNIQUE = "static: where-path resolution against the describe_state schema, leaf-to-field def-use table, CFG must-pass for absent/not-ON defaults, cross-step memory store check, like-named option-hop lint"
 ASSUMPTIONS = [
     "dictionaries keyed by `x.name` hold each component under the literal its class stores as kwargs['name'] in __init__",
     "observe() receives PrimaiteGame.get_sim_state(), i.e. Simulation.describe_state()",
@@ -624,6 +626,92 @@ def r9_6(ctx: Ctx, om: ObsModel) -> None:
     ctx.floor("R9.6", "memory attributes", n, 2)
 
 
+# --------------------------------------------------------------------------------------------------------------- R9.7
+def _option_names(om: ObsModel) -> Set[str]:
+    """Every option an observation ConfigSchema declares (annotated class-body names of the nested ConfigSchema classes)."""
+    out: Set[str] = set()
+    for c in om.classes:
+        for n in c.node.body:
+            if isinstance(n, ast.ClassDef) and n.name == "ConfigSchema":
+                for st in n.body:
+                    if isinstance(st, ast.AnnAssign) and isinstance(st.target, ast.Name):
+                        out.add(st.target.id)
+    return out
+
+
+def _last_name(e: ast.AST) -> Optional[str]:
+    if isinstance(e, ast.Attribute):
+        return e.attr
+    if isinstance(e, ast.Name):
+        return e.id
+    return None
+
+
+def r9_7(ctx: Ctx, om: ObsModel) -> None:
+    """An option travels from the scenario to the leaf that consults it only through same-named hops: inheritance blocks
+    (`if child.f is None: child.f = parent.f`), child-config stores, constructor keywords and `self.f = f`.  A hop whose two
+    ends are both declared option names but different options makes the leaf follow the wrong scenario setting."""
+    ctx.rule("R9.7", "a scenario option reaches the observation through like-named hops only (inheritance, keyword, store)")
+    opts = _option_names(om)
+    if "services_requires_scan" not in opts or "applications_requires_scan" not in opts:
+        raise AnalysisError("R9.7: the *_requires_scan options are no longer declared by the observation ConfigSchemas")
+    n_inh = n_hop = 0
+    for c in om.classes:
+        for fn in c.methods.values():
+            if isinstance(fn.node, ast.Lambda):
+                continue
+            for nd in ast.walk(fn.node):
+                # (a) inheritance block: if X.f is None / if not X.f : X.g = Y.h
+                if isinstance(nd, ast.If) and len(nd.body) == 1 and isinstance(nd.body[0], ast.Assign) and not nd.orelse:
+                    t = nd.test
+                    probe = None
+                    if isinstance(t, ast.Compare) and len(t.ops) == 1 and isinstance(t.ops[0], ast.Is) and \
+                            isinstance(t.comparators[0], ast.Constant) and t.comparators[0].value is None:
+                        probe = t.left
+                    elif isinstance(t, ast.UnaryOp) and isinstance(t.op, ast.Not):
+                        probe = t.operand
+                    asg = nd.body[0]
+                    if isinstance(probe, ast.Attribute) and len(asg.targets) == 1 and isinstance(asg.targets[0], ast.Attribute) \
+                            and isinstance(asg.value, ast.Attribute) and probe.attr in opts:
+                        tgt, val = asg.targets[0], asg.value
+                        if unparse(tgt.value) != unparse(probe.value) or val.attr not in opts:
+                            continue
+                        n_inh += 1
+                        key = ctx.key(fn, f"option {probe.attr} inherits from the like-named parent option")
+                        good = probe.attr == tgt.attr == val.attr
+                        ctx.record("R9.7", key, fn.loc(nd), good,
+                                   f"{fn.short}: when {unparse(probe)} is unset, {unparse(tgt)} is filled from {unparse(val)}"
+                                   + ("" if good else " - a different option: the component follows the wrong scenario setting"))
+                        continue
+                # (b) plain store between option names: X.g = Y.h  /  self.g = h
+                if isinstance(nd, ast.Assign) and len(nd.targets) == 1 and isinstance(nd.targets[0], ast.Attribute):
+                    g, h = nd.targets[0].attr, _last_name(nd.value)
+                    if g in opts and h in opts and isinstance(nd.value, (ast.Attribute, ast.Name)):
+                        n_hop += 1
+                        ctx.record("R9.7", ctx.key(fn, f"store {unparse(nd.targets[0])} <- like-named option"), fn.loc(nd), g == h,
+                                   f"{fn.short}: {unparse(nd.targets[0])} = {unparse(nd.value)}"
+                                   + ("" if g == h else " crosses two different options"))
+                if isinstance(nd, ast.AnnAssign) and isinstance(nd.target, ast.Attribute) and nd.value is not None:
+                    g, h = nd.target.attr, _last_name(nd.value)
+                    if g in opts and h in opts and isinstance(nd.value, (ast.Attribute, ast.Name)):
+                        n_hop += 1
+                        ctx.record("R9.7", ctx.key(fn, f"store {unparse(nd.target)} <- like-named option"), fn.loc(nd), g == h,
+                                   f"{fn.short}: {unparse(nd.target)} = {unparse(nd.value)}"
+                                   + ("" if g == h else " crosses two different options"))
+                # (c) keyword hop: f(..., g=<x>.h) / f(..., g=h)
+                if isinstance(nd, ast.Call):
+                    for kw in nd.keywords:
+                        h = _last_name(kw.value)
+                        if kw.arg in opts and h in opts and isinstance(kw.value, (ast.Attribute, ast.Name)):
+                            n_hop += 1
+                            ctx.record("R9.7", ctx.key(fn, f"keyword {kw.arg} of {call_name(nd)} <- like-named option"), fn.loc(nd),
+                                       kw.arg == h, f"{fn.short}: {call_name(nd)}(..., {kw.arg}={unparse(kw.value)})"
+                                       + ("" if kw.arg == h else " crosses two different options"))
+    ctx.floor("R9.7", "inheritance blocks", n_inh, 20)
+    ctx.floor("R9.7", "option hops", n_hop, 60)
+
+
+
 def check(ctx: Ctx) -> None:
     om = ObsModel(ctx.ix)
     ctx.count("E6:describe_state implementations", len(om.schema.impls()))
@@ -633,6 +721,7 @@ def check(ctx: Ctx) -> None:
     r9_4(ctx, om)
     r9_5(ctx, om)
     r9_6(ctx, om)
+    r9_7(ctx, om)
     ctx.count("E6:describe_state functions evaluated", len(om.schema.evaluated))
 
 
@@ -738,7 +827,7 @@ VARIANTS = [('Software + Service swap producers of visible/actual',
  ('nic forgets to store last-step count',
   'breaking',
   'src/primaite/game/agent/observations/nic_observations.py',
-  [('            self.nmne_inbound_last_step = inbound_count\n', '')]),
+  [('                self.nmne_inbound_last_step = inbound_count\n', '')]),
  ('firewall uses wrong acl in default',
   'breaking',
   'src/primaite/game/agent/observations/firewall_observation.py',
@@ -783,22 +872,39 @@ VARIANTS = [('Software + Service swap producers of visible/actual',
     '        if router_state["operating_state"] != 1:\n'
     '            obs = {**self.default_observation}\n'
     '        else:')]),
- ('folder stores what it observed',
-  'repair',
+ ('revert 894a17b: folder never stores what it observed',
+  'breaking',
   'src/primaite/game/agent/observations/file_system_observations.py',
-  [('        if self.files:\n'
-    '            obs["FILES"] = {i + 1: file.observe(state) for i, file in enumerate(self.files)}\n'
-    '\n'
-    '        return obs',
-    '        if self.files:\n'
-    '            obs["FILES"] = {i + 1: file.observe(state) for i, file in enumerate(self.files)}\n'
-    '        self.cached_obs = obs\n'
-    '        return obs')]),
+  [('        self.cached_obs = obs\n        return obs', '        return obs')]),
+ ('folder memory stored under a differently named local',
+  'benign',
+  'src/primaite/game/agent/observations/file_system_observations.py',
+  [('        self.cached_obs = obs\n        return obs', '        shown = obs\n        self.cached_obs = shown\n        return shown')]),
  ('folder reads visible_status directly',
-  'repair',
+  'benign',
   'src/primaite/game/agent/observations/file_system_observations.py',
   [('            if not folder_state["scanned_this_step"]:\n'
     '                health_status = self.cached_obs["health_status"]\n'
     '            else:\n'
     '                health_status = folder_state["visible_status"]',
-    '            health_status = folder_state["visible_status"]')])]
+    '            health_status = folder_state["visible_status"]')]),
+('host passes the applications flag as the services flag',
+  'breaking',
+  'src/primaite/game/agent/observations/host_observations.py',
+  [('            services_requires_scan=config.services_requires_scan,',
+    '            services_requires_scan=config.applications_requires_scan,')]),
+ ('service child config inherits the file-system flag',
+  'breaking',
+  'src/primaite/game/agent/observations/host_observations.py',
+  [('service_config.services_requires_scan = config.services_requires_scan',
+    'service_config.services_requires_scan = config.file_system_requires_scan')]),
+ ('nodes-level include_users falls back to num_rules',
+  'breaking',
+  'src/primaite/game/agent/observations/node_observations.py',
+  [('            if firewall_config.include_users is None:\n                firewall_config.include_users = config.include_users',
+    '            if firewall_config.include_users is None:\n                firewall_config.include_users = config.num_rules')]),
+ ('inheritance through a local',
+  'benign',
+  'src/primaite/game/agent/observations/node_observations.py',
+  [('                host_config.applications_requires_scan = config.applications_requires_scan',
+    '                inherited = config.applications_requires_scan\n                host_config.applications_requires_scan = inherited')])]
